@@ -373,3 +373,30 @@ for _pid, _secs, _len in (("C01", 240, 400), ("C02", 120, 400), ("C03", 120, 300
     PROPS[_pid]["fuzz_seconds"] = _secs
     PROPS[_pid]["fuzz_max_len"] = _len
     PROPS[_pid]["technique"] += "; thorough tier adds a coverage-guided libFuzzer campaign over the same decoder and oracle"
+
+
+# ---- session 5 (round 6) additions, appended to the stated rules ---------------------------------------------------------
+_ADD6 = {
+    "C01": " One case in 16 runs under the C.UTF-8 locale (character classes must not follow <ctype.h>/<wctype.h>).",
+    "C02": " One case in 16 runs under the C.UTF-8 locale.",
+    "C05": " Parsed URIs are also written into a destination that begins exactly where the unterminated text they were parsed from ends (one arena), capacities N+1, N, N/2, 1.",
+    "C06": " One case in six takes reference and base from the objects a short history of library calls leaves behind (resolved, created, normalised, owned, read back from the library's own text); the model is fed with the texts these objects recompose to (an IPv6 host is then compared by value only).",
+    "C07": " Histories hand every output structure to the library filled with 0xA5 bytes and have two more steps: W (the text the library writes for an object is parsed as a new object) and D (uriFreeUriMembers twice).",
+    "C08": " One case in six normalises an object out of a history of library calls as it stands (mask 63 or random; the history is run twice so that a second copy is normalised with the mask the query reports); the model is fed with the object's text. One case in 16 runs under the C.UTF-8 locale. Host vocabulary: dotted quads of every length 7..15 that appear only after decoding, a capital right behind a kept escape, lone escapes, localhost.",
+    "C09": " One case in six normalises R as an object out of a history of library calls (B another such object, known by its text). 2^16-sized segments have lengths whose low 16 bits are 0..|prefix|.",
+    "C10": " One case in six takes S and B from the objects a history of library calls leaves behind. Long mode: bases about 1000 directories deep; one pair in three has long twins (a segment, host or scheme of 96..1024 characters, same length in S and B, first difference in the second half).",
+    "C11": " Host vocabulary: dotted quads of every length 7..15 that appear only after decoding (fully or partly encoded), localhost, file scheme; histories as in C07 (0xA5-filled outputs, steps W and D).",
+    "C12": " Histories as in C07 (0xA5-filled outputs, steps W and D); one history in 16 in long mode (paths of 384..1025 segments, components of about 1000 / 1024 / 4096 characters, clean or with one capital). Six fixed probes with components of 2^29 / 2^30 characters (F-W1).",
+    "C13": " Histories as in C07 (0xA5-filled outputs, steps W and D; D through the object's own manager).",
+    "C16": " Escaping also with both strings in one arena: the output buffer directly behind the unterminated input range, and the input range directly behind the output buffer.",
+    "C17": " One list in 24 has a key or value of about 1024 / 2048 / 2500 / 4096 characters. Half of the tuned huge lists tune the last item's own contribution ('&' key '=' value) to INT_MAX-2..+2 instead of the total.",
+    "C18": " UNC names with servers / first segments that software special-cases (localhost, ?, ., 127.0.0.1, C:, UNC, c$); in half of the cases the file name sits directly in front of or directly behind the URI buffer (one arena / one struct).",
+    "C19": " Histories as in C07 (steps W and D); one query step in ten has a key of about 1024..4097 characters.",
+    "C20": " All shared inputs (URI structures, their path nodes and host data, the texts, the query list, the backend manager) live in one arena that is PROT_READ during the single-threaded expectation phase and the concurrent phase: a write into a shared input faults even if it stores the value already there.",
+}
+for _pid, _txt in _ADD6.items():
+    PROPS[_pid]["rule"] += _txt
+PROPS["C12"]["technique"] += "; fixed probes with components of 2^29 / 2^30 characters under a size-recording manager"
+PROPS["C20"]["technique"] += "; shared inputs held in read-only pages"
+for _pid in ("C06", "C08", "C09", "C10"):
+    PROPS[_pid]["technique"] += "; operands also taken from generated histories of library calls (stateful generation), judged against the same model via their recomposed texts"
